@@ -15,8 +15,15 @@ with a LIST of writer threads instead of one:
   writer's poll (`WakerId`); a `register` overwrites whatever the cell holds — with one slot a later
   registration replaces an earlier one, also one of another task; `wake()` takes the content of the
   cell and calls it;
-* the acknowledge / close actors are those of `Model/Waker` (`fetch_add` resp. `swap(true)`, then
-  `wake()`).
+* the acknowledge / close actors — the operations of the CONNECTION TASK on the flow slot — are those
+  of `Model/Waker` (`fetch_add` resp. `swap(true)`, then `wake()`);
+* FOREIGN SHUTDOWNS: `MuxStream::do_shutdown(&self)` (`stream.rs:226-240`, also behind
+  `AsyncWrite::poll_shutdown`) is public and can be called through another handle of the stream while
+  a writer is parked.  It performs `finish_sent.swap(true)`, queues a `Finish` frame (not a `Push`:
+  irrelevant for the credit) and wakes NOBODY.  It is an operation of an application thread, not of
+  the connection task, so it is not one of the `actors`: a scenario has `shutdowns` such threads, each
+  of which performs exactly that one atomic operation (label `shutdown`; the threads are
+  indistinguishable, so a counter stands for them).
 
 Only the code as repaired is modelled here (register, then re-check the closed flag and the credit);
 the pinned code and its witness stay in `Model/Waker`.  With one writer thread this model is the
@@ -63,6 +70,8 @@ structure Scenario where
   /-- one entry per writer thread: its number of polls -/
   writers : List Nat
   actors : List ActorKind
+  /-- number of threads that call `do_shutdown()` on the stream once (through another handle) -/
+  shutdowns : Nat
   deriving DecidableEq, Repr
 
 structure State where
@@ -80,12 +89,17 @@ structure State where
   writers : List Writer
   /-- ghost: sum of the `fetch_add` amounts performed -/
   grants : Nat
+  /-- `do_shutdown()` threads that have not run yet -/
+  shutdownsLeft : Nat
+  /-- ghost: `do_shutdown()` calls performed -/
+  shutdownsDone : Nat
   deriving DecidableEq, Repr, Hashable
 
 inductive Label
   | writer (w : Nat)        -- writer thread `w` performs its next operation
   | casSpurious (w : Nat)   -- `compare_exchange_weak` of writer `w` fails spuriously (writer at `cas`)
   | actor (i : Nat)         -- actor thread `i` performs its next operation
+  | shutdown                -- one of the `do_shutdown()` threads performs its `swap(true)`
   deriving DecidableEq, Repr, Hashable
 
 def initWriter (polls : Nat) : Writer where
@@ -108,6 +122,8 @@ def init (sc : Scenario) : State where
   actors := sc.actors.map (⟨·, .write⟩)
   writers := sc.writers.map initWriter
   grants := 0
+  shutdownsLeft := sc.shutdowns
+  shutdownsDone := 0
 
 /-- The current poll of the writer returns `r`; its next poll (if any) starts at `loadFin`. -/
 def Writer.finishPoll (w : Writer) (r : PollResult) : Writer :=
@@ -190,11 +206,19 @@ def spuriousStep (s : State) (i : Nat) : State :=
     | .cas _ => { s with writers := s.writers.set i { w with pc := .loadCredit } }
     | _ => s
 
+/-- `MuxStream::do_shutdown` through another handle: stream.rs:233 `self.finish_sent.swap(true, AcqRel)`
+    (then the `Finish` frame to the task's queue if the flag was clear) — and NO `wake()`. -/
+def shutdownStep (s : State) : State :=
+  match s.shutdownsLeft with
+  | 0 => s
+  | n + 1 => { s with closed := true, shutdownsLeft := n, shutdownsDone := s.shutdownsDone + 1 }
+
 /-- The step function; a label that is not enabled leaves the state unchanged. -/
 def step (s : State) : Label → State
   | .writer i => writerStep s i
   | .casSpurious i => spuriousStep s i
   | .actor i => actorStep s i
+  | .shutdown => shutdownStep s
 
 /-- Every reachable state of scenario `sc` is `run sc ls` for some schedule `ls`. -/
 def run (sc : Scenario) (ls : List Label) : State := ls.foldl step (init sc)
@@ -203,6 +227,7 @@ def enabled (s : State) : Label → Bool
   | .writer i => match s.writers[i]? with | some w => w.pc != .finished | none => false
   | .casSpurious i => match s.writers[i]? with | some w => (match w.pc with | .cas _ => true | _ => false) | none => false
   | .actor i => match s.actors[i]? with | some a => a.pc != .done | none => false
+  | .shutdown => s.shutdownsLeft != 0
 
 /-! ### Observations used by the theorems and by the driver -/
 
@@ -220,6 +245,13 @@ def Writer.results (w : Writer) : List PollResult := (w.log.map (·.2)).reverse
 def wakePending (s : State) : Bool := s.actors.any (·.pc == .wake)
 
 def allActorsDone (s : State) : Bool := s.actors.all (·.pc == .done)
+
+/-- The CONNECTION TASK has closed the stream for writing: some `disallow_write()` has performed its
+    `swap` (whether or not its `wake()` has run yet).  Without foreign shutdowns this is `closed`. -/
+def taskClosed (s : State) : Bool := s.actors.any fun a => a.isCloser && a.pc != .write
+
+/-- Some `disallow_write()` has completed: `swap` and `wake()` both done. -/
+def taskCloseCompleted (s : State) : Bool := s.actors.any fun a => a.isCloser && a.pc == .done
 
 def allWritersFinished (s : State) : Bool := s.writers.all (·.pc == .finished)
 
